@@ -1,4 +1,4 @@
-import Proofs.SubmitReach
+import Proofs.SubmitCrash
 
 /-!
 # C06 — every committed block reaches the DA layer in order; the watermark is sound
@@ -94,6 +94,26 @@ theorem C06_marks_sound (d : Bool) (fuel : Nat) (a : ANode) (items : List Item) 
   · rcases hi.wmFrom with e | ⟨l, hl, e⟩
     · exact Or.inl e
     · exact Or.inr ⟨l, hsub l hl, e⟩
+
+/-- **Acknowledged ⇒ at or below the watermark.**  With the items in increasing height order, the loop splits them into
+an acknowledged prefix `pre` and a remainder: every mark the loop added is the key of an item of `pre`, every item of `pre`
+is on the DA double and marked, and **its height is at most the new watermark** — so an item above the watermark was not
+acknowledged (the pending counters `height − watermark` of C08 count exactly the not-yet-acknowledged heights). -/
+theorem C06_acknowledged_at_most_watermark (d : Bool) (fuel : Nat) (a : ANode) (items : List Item) (script : List DAAns)
+    (hsorted : items.Pairwise (fun x y => x.height < y.height)) :
+    let r := submitLoop d fuel a items script [] []
+    ∃ pre rem, items = pre ++ rem ∧
+      (∀ it ∈ pre, it.height ≤ wm d r.1 ∧ ∃ dh, (dh, d, it.height) ∈ r.1.daBlobs ∧ (it.key, dh) ∈ marks d r.1) ∧
+      (∃ nm, marks d r.1 = nm ++ marks d a ∧ ∀ e ∈ nm, ∃ it ∈ pre, e.1 = it.key) ∧
+      (r.2.2.2 = true → rem = []) := by
+  obtain ⟨rem, pre, hi, hall⟩ := submitLoop_loopInv d fuel a items script []
+  have hps : pre.Pairwise (fun x y => x.height < y.height) := by
+    have := hsorted; rw [hi.split] at this; exact (List.pairwise_append.mp this).1
+  refine ⟨pre, rem, hi.split, fun it hit => ?_, ?_, fun ht => by rw [hall] at ht; exact List.isEmpty_iff.mp ht⟩
+  · obtain ⟨dh, _, _, q3, q4⟩ := hi.sound it hit
+    exact ⟨Nat.le_trans (le_lastH_of_sorted hps hit) hi.wmLast, dh, q3, q4⟩
+  · obtain ⟨nm, h1, h2⟩ := hi.marksNew
+    exact ⟨nm, h1, fun e he => by obtain ⟨it, hit, q, _⟩ := h2 e he; exact ⟨it, hit, q⟩⟩
 
 /-! ## 2. retry until accepted -/
 
@@ -231,7 +251,9 @@ theorem C06_restart_keeps_watermarks {c : Cfg} {a a' : ANode} {clean : Bool}
 /-- **C06, main theorem.**  Let the initial height be any `≥ 1` and let `a` be reached from the node `NewManager`
 builds on an empty disk (`Producer.start c {} = freshNode c`, `Producer.start_empty`) by **any** list of actions
 `ActR`: production steps (any sequencer / execution answers), header submission ticks and data submission ticks (any DA
-answer lists), inclusion passes, and restarts on the node's durable image (clean, or a crash between two actions).  Then
+answer lists), inclusion passes, restarts on the node's durable image (clean, or a crash between two actions), and
+**crashes after any number `k` of the durable writes of the last action** (`ActR.crash k`: the node restarts on
+`base.applyPrefix k ws`, the DA double keeps what was submitted).  Then
 
 1. both last-submitted heights lie in `[initialHeight − 1, chain height]`;
 2. the pending range of either kind contains only committed heights — `pendingBlocks` never asks for a height below
@@ -246,7 +268,7 @@ answer lists), inclusion passes, and restarts on the node's durable image (clean
    leaves only empty blocks above the data watermark, and the next data tick (any answers: the DA layer is not asked)
    ends with `dataWm = chain height`** — for every mix of empty and non-empty blocks. -/
 theorem C06 (c : Cfg) (hpos : 1 ≤ c.initialHeight) (acts : List ActR) :
-    let a := runR c (freshA c) acts
+    let a := (runR c (freshC c) acts).a
     (c.initialHeight - 1 ≤ a.n.hdrWm ∧ a.n.hdrWm ≤ a.n.store.height) ∧
     (c.initialHeight - 1 ≤ a.n.dataWm ∧ a.n.dataWm ≤ a.n.store.height) ∧
     (∀ h, a.n.hdrWm < h → h ≤ a.n.store.height →
@@ -266,7 +288,7 @@ theorem C06 (c : Cfg) (hpos : 1 ≤ c.initialHeight) (acts : List ActR) :
       ∀ s2, (dataIter (dataIter a (fails ++ tail)).1 s2).1.n.dataWm =
         (dataIter (dataIter a (fails ++ tail)).1 s2).1.n.store.height := by
   intro a
-  have r : R c a := (R_fresh c hpos).run acts
+  have r : R c a := ((CI_fresh c hpos).run acts).r
   have hok := hdrOK_of_inv r.pinv r.low
   have l1 := r.low
   have l2 := r.dlow
@@ -283,15 +305,38 @@ theorem C06 (c : Cfg) (hpos : 1 ≤ c.initialHeight) (acts : List ActR) :
 genesis, …), whether after a clean stop or a crash between two actions; it never raises a watermark above
 `max(old, initialHeight − 1)` and keeps the DA layer and the chain height -/
 theorem C06_restart_succeeds (c : Cfg) (hpos : 1 ≤ c.initialHeight) (acts : List ActR) (clean : Bool) :
-    let a := runR c (freshA c) acts
+    let a := (runR c (freshC c) acts).a
     ∃ a', restart c a a.n.store clean = some a' ∧ a'.n.hdrWm ≤ a.n.hdrWm ∧ a'.n.dataWm ≤ a.n.dataWm ∧
-      a.n.store.height ≤ a'.n.store.height ∧ a'.daBlobs = a.daBlobs := by
+      a'.n.store.height = a.n.store.height ∧ a'.daBlobs = a.daBlobs := by
   intro a
-  have r : R c a := (R_fresh c hpos).run acts
-  obtain ⟨a', h, _, h1, h2, h3, h4⟩ := r.restart clean
+  have r : R c a := ((CI_fresh c hpos).run acts).r
+  obtain ⟨a', h, _, f⟩ := r.restart clean
+  have h1 := f.hdrWm
+  have h2 := f.dataWm
   rw [wmRaise_eq r.low] at h1
   rw [wmRaise_eq r.dlow] at h2
-  exact ⟨a', h, h1, h2, h3, h4⟩
+  exact ⟨a', h, h1, h2, f.height, f.daBlobs⟩
+
+/-- **a crash after any number `k` of the durable writes of the last action** (inside a production step: batch cursor,
+early save, final save, `updateState`, `setHeight`; inside a submission tick: between two watermark writes; inside an
+inclusion pass: between `rhb/<h>/h`, `rhb/<h>/d` and `d`; after a restart: on the image it started from): the restart on
+that image never fails, and the node it yields is the next state of the history — so everything `C06` states holds of it:
+the reloaded watermarks are in `[initialHeight − 1, height]`, nothing at or below them is missing from the DA double
+(which keeps what was submitted before the crash), the pending ranges are stored. -/
+theorem C06_crash_at_any_write (c : Cfg) (hpos : 1 ≤ c.initialHeight) (acts : List ActR) (k : Nat) :
+    let σ := runR c (freshC c) acts
+    ∃ ac, restart c σ.a (σ.base.applyPrefix k σ.ws) false = some ac ∧ (runR c (freshC c) (acts ++ [.crash k])).a = ac ∧
+      ac.daBlobs = σ.a.daBlobs ∧ ac.hMarks = [] ∧ ac.dMarks = [] := by
+  intro σ
+  obtain ⟨ac, h, _, f⟩ := ((CI_fresh c hpos).run acts).cuts k
+  refine ⟨ac, h, ?_, f.daBlobs, f.hMarks, f.dMarks⟩
+  show (List.foldl (stepR c) (freshC c) (acts ++ [.crash k])).a = ac
+  rw [List.foldl_append]
+  show (stepR c σ (.crash k)).a = ac
+  show (match Submit.restart c σ.a (σ.base.applyPrefix k σ.ws) false with
+    | some a' => (⟨a', σ.base.applyPrefix k σ.ws, []⟩ : CSt)
+    | none => σ).a = ac
+  rw [h]
 
 /-- the statement of the earlier rounds (production runs only, accepting DA layer): after any production run from a
 fresh start, one header iteration against an accepting DA layer brings the header watermark to the chain height — for
@@ -375,14 +420,26 @@ def w3Acts : List ActR :=
    .restart true, .act (.produce (.batch [[7]] 300 []) .ok), .act (.subD []), .restart false,
    .act (.produce (.batch [[2]] 400 []) .ok), .act (.subH []), .act (.subD []), .act .incl]
 
-example : (runR w3Cfg (freshA w3Cfg) (w3Acts.take 3)).n.hdrWm = 3 ∧
-    (runR w3Cfg (freshA w3Cfg) (w3Acts.take 4)).n.hdrWm = 3 ∧
-    (runR w3Cfg (freshA w3Cfg) (w3Acts.take 7)).n.dataWm = 4 ∧
-    (runR w3Cfg (freshA w3Cfg) w3Acts).n.store.height = 5 ∧
-    (runR w3Cfg (freshA w3Cfg) w3Acts).n.hdrWm = 5 ∧
-    (runR w3Cfg (freshA w3Cfg) w3Acts).n.dataWm = 5 ∧
-    (runR w3Cfg (freshA w3Cfg) w3Acts).daBlobs.map (fun e => (e.2.1, e.2.2)) =
+example : ((runR w3Cfg (freshC w3Cfg) (w3Acts.take 3)).a).n.hdrWm = 3 ∧
+    ((runR w3Cfg (freshC w3Cfg) (w3Acts.take 4)).a).n.hdrWm = 3 ∧
+    ((runR w3Cfg (freshC w3Cfg) (w3Acts.take 7)).a).n.dataWm = 4 ∧
+    ((runR w3Cfg (freshC w3Cfg) w3Acts).a).n.store.height = 5 ∧
+    ((runR w3Cfg (freshC w3Cfg) w3Acts).a).n.hdrWm = 5 ∧
+    ((runR w3Cfg (freshC w3Cfg) w3Acts).a).n.dataWm = 5 ∧
+    ((runR w3Cfg (freshC w3Cfg) w3Acts).a).daBlobs.map (fun e => (e.2.1, e.2.2)) =
       [(true, 5), (false, 5), (false, 4), (true, 4), (false, 3), (false, 3)] := by
+  decide +kernel
+
+/-- a crash at every write boundary of a production step (five durable writes: batch cursor, early save, final save,
+`updateState`, `setHeight`) after block 1 was committed and submitted: the restarted node is at height 1 for a cut before
+`updateState` (block 2 is stored but not committed from the third write on) and at height 2 from `updateState` on (the
+restart completes the commit); both watermarks stay 1 -/
+example : (List.range 7).map (fun k =>
+      let s := stepR xCfg (stepR xCfg (runR xCfg (freshC xCfg)
+        [.act (.produce (.batch [] 150 []) .ok), .act (.subH []), .act (.subD [])])
+        (.act (.produce (.batch [[5]] 200 []) .ok))) (.crash k)
+      (s.a.n.store.height, s.a.n.hdrWm, s.a.n.dataWm)) =
+      [(1, 1, 1), (1, 1, 1), (1, 1, 1), (1, 1, 1), (2, 1, 1), (2, 1, 1), (2, 1, 1)] := by
   decide +kernel
 
 end Spec.C06
